@@ -1,4 +1,5 @@
 import HC.Proto.H2Send
+import HC.Proto.H2SendEvents
 import HC.Extracted.Excepts
 /-!
 # C09 — HTTP/2 flow control is respected; multiplexed delivery is live and ordered
@@ -12,7 +13,7 @@ The only hypothesis on a run is `opOk`: the send task goes to sleep (`park`) onl
 `DeadlockError`, i.e. when no member of the tree is unblocked.
 -/
 namespace HC.Props.C09
-open HC HC.Proto.H2Send HC.Extracted
+open HC HC.Proto.H2Send HC.Proto.H2SendEvents HC.Extracted
 
 /-- common opening of every one-step proof: case on the op, unfold `step`, split its branches, discard the disabled
     ones and substitute the successor state -/
@@ -491,28 +492,7 @@ theorem stream_op_frame (s s' : St) (o : Op) (i j : Nat) (ho : opStream o = some
 
 /-! ### facts other properties cite (C16: both workers' event wrappers behave alike on this glue) -/
 
-/-- `H2Protocol.handle(Closed)` twice = once (streams are already popped, buffers already closed, `has_data` already set) -/
-theorem closed_idempotent (s s1 s2 : St) (h1 : step s .closed = some s1) (h2 : step s1 .closed = some s2) :
-    s2.closed = s1.closed ∧ s2.hasData = s1.hasData ∧ s2.connWin = s1.connWin ∧ s2.task = s1.task ∧ ∀ i, s2.str i = s1.str i := by
-  simp only [step, Option.some.injEq] at h1 h2
-  subst h1
-  subst h2
-  refine ⟨rfl, rfl, rfl, rfl, ?_⟩
-  intro i
-  simp only
-  cases hb : (s.str i).hasBuf <;> simp [hb, Str.closeBuf]
-
-/-- **every `clear()` of an event is taken by the event's only possible waiter, while it is not waiting**:
-    `_is_empty.clear()` (in `push`, and in `drain` of a completed buffer) — by the stream's single sender, which is then not
-    parked in `drain()`; `_paused.clear()` — by the sender itself after its own `wait()`; `has_data.clear()` — by the send task
-    itself after its own `wait()`.  (This is what makes trio's replace-the-event-on-clear wrapper indistinguishable from
-    asyncio's on this code.) -/
-theorem clear_has_no_foreign_waiter (s s' : St) (o : Op) (h : step s o = some s') :
-    (∀ i n, o = .push i n → (s.str i).pusher = .idle) ∧
-    (∀ i, o = .end_ i → (s.str i).pusher = .idle) ∧
-    (∀ i, o = .pushWake i → (s.str i).pusher = .inPush ∧ (s'.str i).pusher = .idle) ∧
-    (o = .wake → s.task = .parked ∧ s'.task = .running) := by
-  refine ⟨fun i n ho => ?_, fun i ho => ?_, fun i ho => ?_, fun ho => ?_⟩ <;> subst ho <;> step_cases h <;> simp_all [upd]
+-- `closed_idempotent` and `clear_has_no_foreign_waiter` live in `HC/Proto/H2SendEvents.lean` (they are also what C16 relies on).
 
 /-! ### quiescent rather than spinning -/
 
